@@ -26,19 +26,32 @@ def correspond(ctx):
     def interior(dims):
         return matrix(PR.interior_point(rng, dims), tc='d')
     def sgemv(G, x, y, dims, trans='N', alpha=1.0, beta=0.0): misc.sgemv(G, x, y, dims, trans=trans, alpha=alpha, beta=beta)
-    for it in range(nsys):
+    rng_keep0, rng_m = rng, random.Random(ctx.seed * 947 + 71)
+    for it in range(nsys + nsys // 4):
+        # the last fifth: componentwise cones with 4..7 inequalities, 3..5 variables, 1..2 equality constraints, no P, in mixed storage (own stream)
+        mixed = it >= nsys
+        if mixed: rng = rng_m
         dims = PR.rand_dims(rng)
         N = PR.cdim(dims)
         n = rng.randint(1, min(4, N)); p = rng.randint(0, min(2, n - 1))
+        if mixed:
+            n = rng.randint(5, 8); N = n + rng.randint(2, 4); dims = {'l': N, 'q': [], 's': []}; p = rng.randint(1, 2)
         pr = None
         # every fourth system: free variables (exactly zero columns of G, zero rows / columns of P, at any position) fixed by the equality
         # constraints: Rank(A) = p and Rank([P; A; G]) = n hold although G'W^-2 G is exactly singular ('l' cone, so that kkt_chol2 takes part)
         free = []
-        if it % 4 == 3:
+        if it % 4 == 3 and not mixed:
             dims = {'l': rng.randint(2, 6), 'q': [], 's': []}; N = dims['l']
             n = rng.randint(2, min(5, N + 1)); free = rng.sample(range(n), rng.randint(1, min(2, n - 1))); p = rng.randint(len(free), n - 1)
         for _ in range(30):
             Gc = [PR.sym_vector(rng, dims) for _ in range(n)]
+            if mixed:
+                # a genuinely sparse G (a diagonal part plus rows that couple two variables): S = G'W^-2 G has a pattern for which the fill-reducing
+                # ordering of the sparse Cholesky factorisation is not the identity
+                Gc = [[0.0] * N for _ in range(n)]
+                for j in range(n): Gc[j][j] = float(rng.choice([1, 2, -1, -2]))
+                for r_ in range(n, N):
+                    j1, j2 = rng.sample(range(n), 2); Gc[j1][r_] = float(rng.choice([1, -1, 2])); Gc[j2][r_] = float(rng.choice([1, -1, 3]))
             for j in free: Gc[j] = [0.0] * N
             Ac = [[PR.rint(rng) for _ in range(p)] for _ in range(n)]
             if PR.rank_cols(Gc, Ac if free else [[] for _ in range(n)]) == n and PR.rank_rows(Ac, p) == p: break
@@ -47,10 +60,11 @@ def correspond(ctx):
         sp = rng.random() < 0.4
         Gm, Am = (sparse(G), sparse(A)) if sp else (G, A)
         # mixed storage (every fifth / sixth system): G sparse with A dense, G dense with A sparse - branches of their own in kkt_chol2 / kkt_chol
-        if it % 5 == 1: Gm, Am, sp = sparse(G), A, 'G sparse, A dense'
-        elif it % 6 == 2: Gm, Am, sp = G, sparse(A), 'G dense, A sparse'
+        if it % 5 == 1 or (mixed and it % 2 == 0): Gm, Am, sp = sparse(G), A, 'G sparse, A dense'
+        elif it % 6 == 2 or mixed: Gm, Am, sp = G, sparse(A), 'G dense, A sparse'
         hasQS = bool(dims['q'] or dims['s'])
         useP = rng.random() < 0.5; junkP = rng.random() < 0.5
+        if mixed: useP = False
         B = matrix([PR.rint(rng, 2) for _ in range(n * n)], (n, n))
         for j in free: B[:, j] = 0.0
         P = B.T * B if useP else None
@@ -119,6 +133,7 @@ def correspond(ctx):
                 if max(d1, d2) > 1e-6 * (1 + max(abs(a) for a in ref[1] + ref[2] + [0.0])):
                     ctx.violation('c07:solvers-disagree:%s-vs-%s' % (nm, ref[0]), 'kkt_%s and kkt_%s give different solutions of the same KKT system (diff %.3g)' % (nm, ref[0], max(d1, d2)),
                                   {'dims': dims, 'sparse': sp})
+    rng = rng_keep0
     # ---- the same block system WITH the nonlinear block (cp / cpl): GG = [Df; G], W acts on (znl, zl), the factories take mnl and the factor call takes
     # H and Df.  kkt_qr has no nonlinear variant; kkt_chol2 takes part on 'l'-only cones.
     nnl = 40 if ctx.quick() else 1500
